@@ -168,6 +168,9 @@ func (r *recorder) osEvent(op, path string, n int) (int, error) {
 		}
 		return 0, nil
 	}
+	if strings.HasPrefix(path, "|") {
+		return 0, nil // an os/exec pipe (the output of go list), not a file of the module
+	}
 	first := path
 	second := ""
 	if i := strings.IndexByte(path, 0); i >= 0 {
